@@ -258,9 +258,6 @@ func ruleLibrariesThroughRegisterModule(c *Ctx) {
 		if !strings.HasPrefix(fn.Name(), "Open") || len(fn.Params) != 1 || typeName(fn.Params[0].Type()) != "LState" || fn.Signature.Results().Len() != 1 {
 			continue
 		}
-		if fn.Name() == "OpenBase" {
-			continue // the base library is the globals table itself
-		}
 		n++
 		c.Sites++
 		c.touch(fn)
@@ -380,6 +377,7 @@ func ruleHexPrefixOnce(c *Ctx) {
 		}
 	}
 	n := 0
+	seen := map[int64]bool{}
 	var bad ssa.Instruction
 	allInstrs(fn, func(in ssa.Instruction) {
 		b, ok := in.(*ssa.BinOp)
@@ -391,10 +389,13 @@ func ruleHexPrefixOnce(c *Ctx) {
 			return
 		}
 		n++
+		seen[k] = true
 		if inLoop[in.Block()] && bad == nil {
 			bad = in
 		}
 	})
+	c.Sites++
+	c.check(seen['x'] && seen['X'], R, "scanNumber:hex-prefix-in-both-cases", p.pos(fn.Pos()), "the prefix test accepts 0x and 0X", "scanNumber tests for one spelling of the hexadecimal prefix only: `0X10` — a numeral of Lua 5.1, accepted by tonumber — is read as 0 followed by the name X10 and the chunk is rejected")
 	pos := p.pos(fn.Pos())
 	if bad != nil {
 		pos = p.ipos(bad)
